@@ -12,7 +12,15 @@ The program counter of a thread names its *pending* operation.
 Threads: 0 = main (constructs the pool, starts the clients, performs its own
 calls, joins the clients, destroys the pool), 1..n = workers, n+1.. = clients.
 Jobs are instances `⟨id, code⟩`; `cfg.prog code` is the list of calls the job body
-makes (enqueue / terminate).  Ids are given in push order.
+makes (enqueue / terminate / done() / idle()), optionally ended by a `throw`: the body
+then ends with a `std::runtime_error`, which `ThreadPool::worker` catches (and logs) in
+its `try { job(); } catch (std::exception&)`; the catch block contains no synchronisation
+operation, so in both cases control continues at the fence behind the try/catch — the
+throwing path is the same sequence of program points `wFence, wDoneInc, wBusyDec, wRelock,
+wNotify`, entered with the note `job!id` instead of `job-id` and recorded in the ghost
+list `thrown`.  Ids are given in push order.
+`cfg.initYields`: scheduling points inside the `init_thread` callback a worker runs before
+it first takes the mutex (`wInit`): a worker that is neither idle nor busy.
 
 Ghost state (not in the C++): `started` (ids in the order they were popped for
 execution) and `finished` (ids whose body has returned).
@@ -24,6 +32,11 @@ open TlxVerif.Sched (StepOut)
 /-- calls on the pool: `enq code`, `terminate()`, `loop_until_empty()`, `loop_until_terminate()` -/
 inductive Act
   | enq (code : Nat) | term | lue | lut
+  /-- `done()` / `idle()`: a single atomic load -/
+  | obsDone | obsIdle
+  /-- (job bodies only) `throw std::runtime_error(…)`: the rest of the body is not executed; the worker
+      catches the exception, logs it and carries on behind the try/catch -/
+  | throw
   deriving DecidableEq, Repr, Inhabited
 
 structure Job where
@@ -33,7 +46,8 @@ structure Job where
 
 /-- pending operation inside a call -/
 inductive CPc
-  | lock        -- std::unique_lock<std::mutex> lock(mutex_)
+  | lock        -- entry of a call: std::unique_lock<std::mutex> lock(mutex_)
+                --   (for done() / idle() the atomic load, which is the whole call)
   | enqNotify   -- jobs_.emplace_back(job); cv_jobs_.notify_one()
   | tStore      -- terminate_ = true
   | tNotifyJ    -- cv_jobs_.notify_all()
@@ -49,6 +63,7 @@ inductive CPc
 inductive Pc
   | start | finished
   -- worker (thread_pool.cpp: ThreadPool::worker)
+  | wInit (j : Nat)  -- inside init_thread_(p): `j` more yields of the callback to go
   | wLock          -- unique_lock lock(mutex_)
   | wLoadTerm1     -- if (!terminate_ && jobs_.empty())
   | wIdleInc       -- ++idle_
@@ -88,6 +103,8 @@ structure Thread where
 
 structure Cfg where
   nworkers : Nat
+  /-- number of scheduling points (yields) inside the `init_thread` callback; 0 = none / no callback -/
+  initYields : Nat := 0
   prog : Nat → List Act
   clients : List (List Act)
   mainCalls : List Act
@@ -107,6 +124,8 @@ structure State where
   thr : List Thread
   started : List Nat := []
   finished : List Nat := []
+  /-- ghost: ids of the jobs whose body ended by throwing (they are in `finished` as well) -/
+  thrown : List Nat := []
   deriving Repr
 
 def init (cfg : Cfg) : State :=
@@ -118,14 +137,20 @@ def nclients (cfg : Cfg) : Nat := cfg.clients.length
 def workerTid (i : Nat) : Nat := i + 1
 def clientTid (cfg : Cfg) (i : Nat) : Nat := cfg.nworkers + 1 + i
 
-/-- the script a thread is executing calls from -/
-def script (cfg : Cfg) (th : Thread) : List Act :=
+/-- the list of calls a thread has been given (main calls / client calls / job body) -/
+def fullScript (cfg : Cfg) (th : Thread) : List Act :=
   match th.role with
   | .main => cfg.mainCalls
   | .client i => cfg.clients.getD i []
   | .worker => match th.job with
     | some j => cfg.prog j.code
     | none => []
+
+/-- the calls a thread really executes: everything before the first `throw` -/
+def script (cfg : Cfg) (th : Thread) : List Act := (fullScript cfg th).takeWhile (· != .throw)
+
+/-- the body ends by throwing -/
+def throws (cfg : Cfg) (th : Thread) : Bool := (script cfg th).length < (fullScript cfg th).length
 
 def pcOf (s : State) (t : Nat) : Pc := (s.thr[t]?.map (·.pc)).getD .finished
 
@@ -158,7 +183,11 @@ def enabled (cfg : Cfg) (s : State) (t : Nat) : Bool :=
     match th.pc with
     | .finished => false
     | .start => t ≤ s.spawned
-    | .wLock | .wRelock | .mDLock | .call _ .lock => s.owner.isNone
+    | .wLock | .wRelock | .mDLock => s.owner.isNone
+    | .call k .lock =>
+      match (script cfg th)[k]? with
+      | some .obsDone | some .obsIdle => true      -- an atomic load
+      | _ => s.owner.isNone
     | .wWaiting => s.owner.isNone && !s.wJ.contains t
     | .call _ .waiting => s.owner.isNone && !s.wF.contains t
     | .mJoinC i => pcOf s (clientTid cfg i) == .finished
@@ -185,8 +214,11 @@ def unfinished (s : State) (t : Nat) : Bool :=
 def mainJoinPc (cfg : Cfg) : Pc := if nclients cfg = 0 then .mDLock else .mJoinC 0
 def mainJoinEv (cfg : Cfg) (t : Nat) : List String := if nclients cfg = 0 then [ev t "dtor"] else []
 
-def mainScriptPc (cfg : Cfg) : Pc := if cfg.mainCalls.isEmpty then mainJoinPc cfg else .call 0 .lock
-def mainScriptEv (cfg : Cfg) (t : Nat) : List String := if cfg.mainCalls.isEmpty then mainJoinEv cfg t else []
+/-- the calls the main thread makes itself -/
+def mainScript (cfg : Cfg) : List Act := cfg.mainCalls.takeWhile (· != .throw)
+
+def mainScriptPc (cfg : Cfg) : Pc := if (mainScript cfg).isEmpty then mainJoinPc cfg else .call 0 .lock
+def mainScriptEv (cfg : Cfg) (t : Nat) : List String := if (mainScript cfg).isEmpty then mainJoinEv cfg t else []
 
 /-- id of the job a worker is executing -/
 def jobId (th : Thread) : Nat := (th.job.map (·.id)).getD 0
@@ -202,9 +234,15 @@ def endOfScriptEv (cfg : Cfg) (t : Nat) (th : Thread) : List String :=
   match th.role with
   | .main => mainJoinEv cfg t
   | .client _ => []
-  | .worker => [ev t s!"job-{jobId th}"]
+  | .worker => [ev t (if throws cfg th then s!"job!{jobId th}" else s!"job-{jobId th}")]
 
-/-- ghost: a job body that returns is recorded as finished -/
+/-- ghost: jobs whose body threw -/
+def endOfScriptThrown (cfg : Cfg) (s : State) (th : Thread) : List Nat :=
+  match th.role with
+  | .worker => if throws cfg th then s.thrown ++ [jobId th] else s.thrown
+  | _ => s.thrown
+
+/-- ghost: a job body that returns (or throws) is recorded as finished -/
 def endOfScriptFin (s : State) (th : Thread) : List Nat :=
   match th.role with
   | .worker => s.finished ++ [jobId th]
@@ -213,14 +251,15 @@ def endOfScriptFin (s : State) (th : Thread) : List Nat :=
 /-- what follows the return of call `k` of the thread's script -/
 def afterCall (cfg : Cfg) (s : State) (t : Nat) (th : Thread) (k : Nat) : State :=
   if k + 1 < (script cfg th).length then setThr s t { th with pc := .call (k + 1) .lock }
-  else { setThr s t (endOfScript cfg th) with finished := endOfScriptFin s th }
+  else { setThr s t (endOfScript cfg th) with finished := endOfScriptFin s th, thrown := endOfScriptThrown cfg s th }
 
 def afterCallEv (cfg : Cfg) (t : Nat) (th : Thread) (k : Nat) : List String :=
   if k + 1 < (script cfg th).length then [] else endOfScriptEv cfg t th
 
 /-- beginning of a script (client start, job body start) -/
 def beginScript (cfg : Cfg) (s : State) (t : Nat) (th : Thread) : State :=
-  if (script cfg th).isEmpty then { setThr s t (endOfScript cfg th) with finished := endOfScriptFin s th }
+  if (script cfg th).isEmpty then
+    { setThr s t (endOfScript cfg th) with finished := endOfScriptFin s th, thrown := endOfScriptThrown cfg s th }
   else setThr s t { th with pc := .call 0 .lock }
 
 def beginScriptEv (cfg : Cfg) (t : Nat) (th : Thread) : List String :=
@@ -251,7 +290,8 @@ def step (cfg : Cfg) (s : State) (t : Nat) (c : Nat) : Option (StepOut State) :=
     if t > s.spawned then none else
     match th.role with
     | .main => out (setThr s t { th with pc := .mCtor 0 }) [ev t "start"]
-    | .worker => out (setThr s t { th with pc := .wLock }) [ev t "start"]   -- init_thread_ is empty
+    | .worker =>     -- if (init_thread_) init_thread_(p);
+      out (setThr s t { th with pc := if cfg.initYields = 0 then .wLock else .wInit cfg.initYields }) [ev t "start"]
     | .client _ => out (beginScript cfg s t th) (ev t "start" :: beginScriptEv cfg t th)
   -- ------------------------------------------------------------ main
   | .mCtor i =>
@@ -280,6 +320,7 @@ def step (cfg : Cfg) (s : State) (t : Nat) (c : Nat) : Option (StepOut State) :=
       else out (setThr s t { th with pc := .finished }) [ev t s!"join({workerTid i})", ev t "end"]
     else none
   -- ------------------------------------------------------------ worker
+  | .wInit j => out (setThr s t { th with pc := if j ≤ 1 then .wLock else .wInit (j - 1) }) [ev t "yield"]
   | .wLock =>
     if s.owner.isNone then out { setThr s t { th with pc := .wLoadTerm1 } with owner := some t } [ev t "lock(m)"] else none
   | .wLoadTerm1 =>
@@ -324,14 +365,21 @@ def step (cfg : Cfg) (s : State) (t : Nat) (c : Nat) : Option (StepOut State) :=
     | some a =>
     match cpc with
     | .lock =>
-      if s.owner.isNone then
-        let s1 := { s with owner := some t }
-        let nxt : CPc := match a with
-          | .enq _ => .enqNotify
-          | .term => .tStore
-          | _ => predEntry s a
-        out (setThr s1 t { th with pc := .call k nxt }) [ev t "lock(m)"]
-      else none
+      match a with
+      | .obsDone =>      -- size_t done() const { return done_; }
+        out (afterCall cfg s t th k) ([ev t s!"ld(done)={s.done}", ev t s!"r={s.done}"] ++ afterCallEv cfg t th k)
+      | .obsIdle =>      -- size_t idle() const { return idle_; }
+        out (afterCall cfg s t th k) ([ev t s!"ld(idle)={s.idle}", ev t s!"r={s.idle}"] ++ afterCallEv cfg t th k)
+      | .throw => none   -- unreachable: `script` stops before the first throw
+      | .enq _ =>
+        if s.owner.isNone then out (setThr { s with owner := some t } t { th with pc := .call k .enqNotify }) [ev t "lock(m)"]
+        else none
+      | .term =>
+        if s.owner.isNone then out (setThr { s with owner := some t } t { th with pc := .call k .tStore }) [ev t "lock(m)"]
+        else none
+      | .lue | .lut =>
+        if s.owner.isNone then out (setThr { s with owner := some t } t { th with pc := .call k (predEntry s a) }) [ev t "lock(m)"]
+        else none
     | .enqNotify =>
       match a with
       | .enq code =>
